@@ -92,6 +92,10 @@ func (c CoefficientGetter) GetVectorCoefficient(pol polynomial.PolynomialVector,
 	mapping := pol.Mapping
 
 	for i, p := range pol.Value {
+		// coefficients of a parity the polynomial declares not to have are nil
+		if p.Coeffs[k] == nil {
+			continue
+		}
 		for _, j := range mapping[i] {
 			values[j] = p.Coeffs[k].Uint64()
 		}
